@@ -313,6 +313,15 @@ func (t *Target) rewrite(req *httputil.ProxyRequest) {
 	routingContext := RoutingContext(req.In)
 	if routingContext != nil {
 		req.Out.URL.Path = strings.TrimPrefix(req.Out.URL.Path, routingContext.MatchedPrefix)
+
+		// RawPath, when set, holds the client's own encoding of the path. When
+		// it spells the prefix literally, trim it there too, so that the rest of
+		// the path reaches the target encoded as it was sent (`%2F` stays `%2F`).
+		// Otherwise RawPath no longer matches Path, and is ignored.
+		rawPath, found := strings.CutPrefix(req.Out.URL.RawPath, routingContext.MatchedPrefix)
+		if found && (rawPath == "" || strings.HasPrefix(rawPath, "/")) {
+			req.Out.URL.RawPath = rawPath
+		}
 	}
 
 	// Ensure query params are preserved exactly, including those we could not
